@@ -104,7 +104,7 @@ def small_structure(draw):
     return {"A": {"U": U, "p": p, "P": P, "w": w, "num": "frac"},
             "B": {"U": V, "p": q, "P": Q, "w": None, "num": "frac"},
             "op": draw(st.sampled_from(OPS)), "t": draw(st.sampled_from([F(1, 3), F(2, 5), F(1, 2)])),
-            "profile": "small"}
+            "profile": "small", "float_first": draw(st.booleans())}
 
 
 # ----------------------------------------------------------------- operation runner
@@ -361,6 +361,16 @@ def check_exact(case, out):
         klass += ";int-points>=2^63"
         out.cls("int-points>=2^63")
     try:
+        if case.get("float_first"):
+            # history: the same operation on the float twin first (value-keyed caches must not leak floats)
+            out.cls("float-run-first")
+            try:
+                run_op(case, "float")
+            except Skip:
+                pass
+            except Exception as exc0:
+                if not lib.from_library(exc0):
+                    raise
         items, raw = run_op(case, "frac")
     except Skip:
         out.exclude("operand-shapes-not-applicable")
